@@ -262,13 +262,16 @@ PROPS["C10"] = Prop(
     oracle_tokens=["ORACLE_NEGATIVE_AFTER_SOLVE", "ORACLE_CONVERGED_WITH_NONFINITE", "ORACLE_NONFINITE_INPUT_REPORTED_CONVERGED",
                    "ORACLE_NEGATIVE_CONCENTRATION"])
 PROPS["C14"] = Prop(
-    "C14", family_driver=dict(_slv_drv, markowitz=("drv_linalg", "plain")), model_families=set(),
-    generate=lambda rng, tier: G.gen_slv_cfg(rng, tier, "c14", 800, 15000) + G.gen_markowitz(rng, tier),
+    "C14", family_driver=dict(_slv_drv, markowitz=("drv_linalg", "plain"), spmap=("drv_builder", "plain")),
+    model_families={"markowitz", "spmap"},
+    generate=lambda rng, tier: G.gen_slv_cfg(rng, tier, "c14", 800, 15000) + G.gen_markowitz(rng, tier) + G.gen_spmap(rng, tier),
     rule="random mechanisms whose species carry (or not) an 'absolute tolerance' property, solved for 3-6 random "
          "permutations of the species listing x reorder on/off x layouts: the name->index map must be a bijection agreeing "
          "with variable_names_, tolerances land at the named species, results by name agree; the real "
          "DiagonalMarkowitzReorder on every 0/1 pattern n<=3 (quick) / n<=4 (thorough) and random n<=8, row-major and "
-         "grouped int matrices: the result must be a permutation",
+         "grouped int matrices: the result must be a permutation, and the permutation the model's instance of the heuristic "
+         "computes; spmap: solvers built by the real SolverBuilder for random mechanisms, random listing orders, reordering "
+         "on/off: variable_map_ and variable_names_ equal to the composed model BuilderMap.builder_species_map",
     trusted=_slv_trust, histogram=_slv_hist,
     oracle_tokens=["ORACLE_SPECIES_MAP_NOT_A_BIJECTION", "ORACLE_TOLERANCE_NOT_BY_NAME", "ORACLE_CONFIGS_DISAGREE",
                    "ORACLE_REORDERING_NOT_A_PERMUTATION"])
@@ -467,3 +470,36 @@ def _c08_diagnose():
 
 import vcore as V  # noqa: E402
 PROPS["C08"].diagnose = _c08_diagnose
+
+
+# The theorems of C09, C11 and C12 are about model functions whose tie to the code is the business of other properties'
+# families (forcing / jacobian: C01, C02; lu / linsolve: C03, C04; rosmock / bemock: C05-C07).  Each check runs the tie
+# of the functions its own theorems mention on a sample of those families, so that no theorem is reported as holding
+# on a run that has not compared its model with the current source.
+def _sample(gen, n_quick, n_thorough):
+    def g(rng, tier):
+        lines = gen(rng, "quick")
+        k = n_quick if tier == "quick" else n_thorough
+        return lines if len(lines) <= k else rng.sample(lines, k)
+    return g
+
+
+def _add_tie(pid, fams):
+    prop = PROPS[pid]
+    old_gen = prop.generate
+    extra = [(_sample(gen, 150, 600)) for (_, _, gen) in fams]
+    prop.family_driver = dict(prop.family_driver, **{f: d for (f, d, _) in fams})
+    prop.model_families = set(prop.model_families) | {f for (f, _, _) in fams}
+    prop.generate = lambda rng, tier: old_gen(rng, tier) + [l for g in extra for l in g(rng, tier)]
+    prop.rule += "; tie of the model functions of this property's theorems: samples of the families " + ", ".join(f for (f, _, _) in fams)
+
+
+_F = ("forcing", ("drv_process", "plain"), G.gen_forcing)
+_J = ("jacobian", ("drv_process", "plain"), G.gen_jacobian)
+_LU = ("lu", ("drv_linalg", "plain"), G.gen_lu)
+_LS = ("linsolve", ("drv_linalg", "plain"), G.gen_linsolve)
+_RM = ("rosmock", ("drv_integrators", "plain"), G.gen_rosmock)
+_BM = ("bemock", ("drv_integrators", "plain"), G.gen_bemock)
+_add_tie("C09", [_F, _RM, _BM])
+_add_tie("C11", [_RM, _BM])
+_add_tie("C12", [_F, _J, _LU, _LS])
